@@ -307,7 +307,21 @@ func (r *rw) rewriteRange(c *astutil.Cursor, n *ast.RangeStmt) {
 	}
 	if _, isMap := tv.Type.Underlying().(*types.Map); !isMap {
 		if _, isChan := tv.Type.Underlying().(*types.Chan); isChan && r.mode.conc {
-			r.errAt(n, "range over channel in a scheduled package is not supported")
+			// for v := range ch { body }  ->  for { v', ok := vrt.Recv2(ch, site); if !ok { break }; v := v'; body }
+			val, okv := r.fresh("rv"), r.fresh("rok")
+			recv := &ast.AssignStmt{Lhs: []ast.Expr{ast.NewIdent(val), ast.NewIdent(okv)}, Tok: token.DEFINE,
+				Rhs: []ast.Expr{&ast.CallExpr{Fun: vrtSel("Recv2"), Args: []ast.Expr{n.X, r.site(n)}}}}
+			stop := &ast.IfStmt{Cond: &ast.UnaryExpr{Op: token.NOT, X: ast.NewIdent(okv)}, Body: &ast.BlockStmt{List: []ast.Stmt{&ast.BranchStmt{Tok: token.BREAK}}}}
+			list := []ast.Stmt{recv, stop}
+			if n.Key != nil && !isBlank(n.Key) {
+				list = append(list, &ast.AssignStmt{Lhs: []ast.Expr{n.Key}, Tok: n.Tok, Rhs: []ast.Expr{ast.NewIdent(val)}})
+			} else {
+				list = append(list, &ast.AssignStmt{Lhs: []ast.Expr{ast.NewIdent("_")}, Tok: token.ASSIGN, Rhs: []ast.Expr{ast.NewIdent(val)}})
+			}
+			list = append(list, n.Body.List...)
+			c.Replace(&ast.ForStmt{Body: &ast.BlockStmt{List: list}})
+			r.needVrt, r.changed = true, true
+			r.sites++
 		}
 		return
 	}
